@@ -41,7 +41,7 @@ ASSUMPTIONS = ["documented renaming: score, subtomo_id->subtomo_num, tomo_id->to
                "which integer a .5 tie goes to is not judged here (C05)"]
 
 CLASSES = ["n1", "unsorted_ids", "sparse_ids", "single_parity", "duplicate_ids", "arbitrary_floats", "star_ties",
-           "int_dtypes", "permuted_columns", "filtered_index", "object_after_filter", "foreign_star", "via_em_file",
+           "int_dtypes", "permuted_columns", "filtered_index", "object_after_filter", "foreign_star", "foreign_frame", "via_em_file",
            "half_integer_positions", "object_copy", "n300"]
 CANON = gens.COLS
 ROUTES = ["StopgapMotl(df).write_out", "StopgapMotl(StopgapMotl).write_out", "Motl.load(df,stopgap).write_out",
@@ -302,12 +302,21 @@ def gen(ctx, i, cls):
     if cls == "via_em_file":
         route = "emmotl2stopgap(em_path,path)"
     foreign = None
-    if cls == "foreign_star":
-        foreign = dict(order=[O.SG_CANON[k] for k in rng.permutation(16)] if rng.random() < 0.5 else list(O.SG_CANON),
+    if cls in ("foreign_star", "foreign_frame"):
+        # a list in STOPGAP form that cryoCAT did not produce: halfset letters need not follow the parity of subtomo_num
+        # and motl_idx is in general unrelated to it (normal for lists written by STOPGAP itself)
+        foreign = dict(order=[O.SG_CANON[k] for k in rng.permutation(16)] if rng.random() < 0.4 else list(O.SG_CANON),
                        nl=["\n", "\r\n"][int(rng.integers(0, 2))], sep=["\t", "  ", " \t "][int(rng.integers(0, 3))],
                        numbered=bool(rng.integers(0, 2)), fmt=["repr", "%.6f", "%.10g"][int(rng.integers(0, 3))],
-                       int_tokens=bool(rng.integers(0, 2)))
-        route = "foreign file -> StopgapMotl(path).write_out"
+                       int_tokens=bool(rng.integers(0, 2)),
+                       halfset=str(rng.choice(["parity", "random", "random", "inverted", "all_A", "all_B"])),
+                       motl_idx=str(rng.choice(["ids", "1..N", "shuffled", "offset", "unrelated"])))
+        if cls == "foreign_star":
+            route = "foreign file -> StopgapMotl(path).write_out"
+        else:
+            foreign["loader"] = str(rng.choice(["StopgapMotl(sg_frame)", "Motl.load(sg_frame,stopgap)", "StopgapMotl(StopgapMotl(sg_frame))"]))
+            foreign["odd_labels"] = bool(rng.random() < 0.3)
+            route = "foreign frame -> %s.write_out" % foreign["loader"]
     variant = None
     if cls == "object_after_filter":
         variant = str(rng.choice(["remove_feature", "bool_filter", "row_permutation", "static_nonrange_frame", "duplicate_labels"]))
@@ -409,6 +418,14 @@ def _inmem(ctx, case, t, E, rng):
         _rm(pem)
         if ok:
             _judge(ctx, "converters", O.em_fields(em.df), E, False, "exact", stage="stopgap2emmotl(sg_df, em_path)")
+    elif pick == 3 and ok and back is not None:
+        # an object built from a STOPGAP-form frame, exported unedited with the OPPOSITE reset flag: motl_idx in the file
+        # has to follow the flag of this call, not the motl_idx the frame carried
+        p3 = os.path.join(ctx.scratch, "reexport_%s.star" % case["i"])
+        ok, _ = ctx.call("StopgapMotl(sg_df).write_out", back.write_out, p3, False, not case["reset"])
+        if ok and os.path.exists(p3):
+            _check_file(ctx, p3, E, False, not case["reset"], "StopgapMotl(sg_df).write_out(reset_index=%s)" % (not case["reset"]))
+        _rm(p3)
     elif pick == 1 and ok and back is not None:
         ok, em = ctx.call("stopgap2emmotl(StopgapMotl,update)", cm.stopgap2emmotl, back, None, True)
         if ok:
@@ -541,21 +558,41 @@ def _standard(ctx, case, t, E, rng):
 
 
 def _foreign(ctx, case, t, E, rng):
-    """A STOPGAP file cryoCAT did not write -> particle list -> STOPGAP file again."""
+    """A list in STOPGAP form that cryoCAT did not write (file from the oracle's writer, or an in-memory STOPGAP-form
+    frame) -> particle list -> exported UNEDITED through write_out(.star).  The halfset / motl_idx the loaded list carried
+    are arbitrary; the export has to follow the parity rule and motl_idx = subtomo_num (or 1..N)."""
     cm = ctx.cm
     fo = case["foreign"]
-    p1 = os.path.join(ctx.scratch, "foreign_%s.star" % case["i"])
     ids = E["subtomo_id"]
-    O.write_sg_star(p1, E, O.parity_halfset(ids), O.expected_motl_idx(ids, bool(rng.integers(0, 2))), order=fo["order"],
-                    nl=fo["nl"], sep=fo["sep"], numbered=fo["numbered"], fmt=fo["fmt"], int_tokens=fo["int_tokens"])
-    _reload(ctx, case, p1, E, False)
-    ok, m = ctx.call("StopgapMotl(path)", cm.StopgapMotl, p1)
-    _rm(p1)
-    if not ok:
-        return
-    E2 = O.em_fields(m.df)
-    if not _judge(ctx, "star_reload", E2, E, False, "star", loader="StopgapMotl(foreign path)"):
-        return
+    half = O.foreign_halfset(rng, ids, fo["halfset"])
+    midx = O.foreign_motl_idx(rng, ids, fo["motl_idx"])
+    if case["cls"] == "foreign_star":
+        p1 = os.path.join(ctx.scratch, "foreign_%s.star" % case["i"])
+        O.write_sg_star(p1, E, half, midx, order=fo["order"], nl=fo["nl"], sep=fo["sep"], numbered=fo["numbered"],
+                        fmt=fo["fmt"], int_tokens=fo["int_tokens"])
+        _reload(ctx, case, p1, E, False)
+        ok, m = ctx.call("StopgapMotl(path)", cm.StopgapMotl, p1)
+        _rm(p1)
+        if not ok:
+            return
+        E2 = O.em_fields(m.df)
+        if not _judge(ctx, "star_reload", E2, E, False, "star", loader="StopgapMotl(foreign path)"):
+            return
+    else:
+        sgf = O.sg_frame(E, half, midx, fo["order"], fo["int_tokens"])
+        if fo["odd_labels"]:
+            sgf.index = rng.permutation(len(sgf)) * 2 + 11
+        if fo["loader"] == "Motl.load(sg_frame,stopgap)":
+            ok, m = ctx.call(fo["loader"], cm.Motl.load, sgf, "stopgap")
+        else:
+            ok, m = ctx.call("StopgapMotl(sg_frame)", cm.StopgapMotl, sgf)
+            if ok and fo["loader"] == "StopgapMotl(StopgapMotl(sg_frame))":
+                ok, m = ctx.call("StopgapMotl(StopgapMotl)", cm.StopgapMotl, m)
+        if not ok:
+            return
+        E2 = O.em_fields(m.df)
+        if not _judge(ctx, "converters", E2, E, False, "exact", stage=fo["loader"] + ".df"):
+            return
     # second generation: the list the object now holds is the reference (exact in memory)
     ok, sg = ctx.call("convert_to_sg_motl(obj.df)", cm.StopgapMotl.convert_to_sg_motl, m.df, case["reset"])
     if ok:
@@ -632,7 +669,7 @@ def run_case(ctx, case):
     rng = ctx.rng(case["i"], 1)
     t = build_input(case, rng)
     E = O.em_fields(t)
-    if case["cls"] == "foreign_star":
+    if case["cls"] in ("foreign_star", "foreign_frame"):
         _foreign(ctx, case, t, E, rng)
     elif case["cls"] == "object_after_filter":
         _filtered_object(ctx, case, t, E, rng)
